@@ -1,7 +1,7 @@
 """C19 - unknown prepared statements are transparently re-prepared."""
 import ast
 
-from ..core import AnalysisError, src, body_walk, walk_no_nested
+from ..core import AnalysisError, src, body_walk, walk_no_nested, parent
 from ..cfg import CFG, Flow
 from ..rfutil import CLUSTER, outcome_flow, classify_call, TERMINAL, SEND, FINAL_EXC, REPREPARE
 
@@ -64,8 +64,33 @@ def check(chk):
     ok = all(fa.knows('ProtocolVersion.uses_keyspace_flag(self.session.cluster.protocol_version)') is False and fa.knows('prepared_keyspace') is True
              and fa.knows('current_keyspace == prepared_keyspace') is False for fa, _ in fl.at(mism[0]))
     chk.judge(ok, 'C19.terminal', mism[0].ast, 'mismatch only without keyspace flag, with a prepared keyspace differing from the connection\'s', 'keyspace mismatch condition changed')
-    unk = [n for n in g.stmt_nodes() if n.kind == 'stmt' and src(n.ast) == 'self._set_final_exception(response)' and any(fa.knows('self.prepared_statement') is False for fa, _ in fl.at(n))]
+    def _in_keyerror_handler(a):
+        p_ = parent(a)
+        while p_ is not None and p_ is not sr:
+            if isinstance(p_, ast.ExceptHandler) and p_.type is not None and 'KeyError' in src(p_.type):
+                return True
+            p_ = parent(p_)
+        return False
+    unk = [n for n in g.stmt_nodes() if n.kind == 'stmt' and src(n.ast) == 'self._set_final_exception(response)' and _in_keyerror_handler(n.ast)
+           and bool(list(fl.at(n))) and all(fa.knows('self.prepared_statement') is False for fa, _ in fl.at(n))]
     chk.judge(len(unk) >= 1 and all([s_.kind for s_, _ in n.succ] == ['return'] for n in unk), 'C19.terminal', sr, 'unknown id and no statement: final exception then return', 'unknown statement arm is not terminal')
+
+    # an UNPREPARED answer for a statement the client knows always leads to a re-prepare on that host: the arm has no other way out than the two refusals above
+    chk.rule('C19.always', 'PreparedQueryNotFound arm: every path either submits _reprepare or is one of the two refusals (no statement for the id; keyspace mismatch without keyspace flag)')
+    arm_ids = set(id(x) for st_ in arm.body for x in ast.walk(st_))
+    finals = [n for n in g.stmt_nodes() if n.kind == 'stmt' and id(n.ast) in arm_ids and any(isinstance(c, ast.Call) and src(c.func) == 'self._set_final_exception' for c in ast.walk(n.ast))]
+    allowed = set(id(n) for n in unk) | set(id(n) for n in mism)
+    extra = [n for n in finals if id(n) not in allowed]
+    chk.judge(not extra, 'C19.always', arm, 'the unprepared arm fails the request only for an unknown statement or a keyspace mismatch',
+              'the arm has a further way to fail the request (%s): a statement that must be prepared on more than one node during one request (the first node re-prepared, then failed; the '
+              'next node does not know it either) is refused instead of being re-prepared there' % [src(n.ast)[:60] for n in extra])
+    rets_arm = [n for n in g.stmt_nodes() if n.kind == 'return' and id(n.ast) in arm_ids]
+    subs_ = [n for n in g.stmt_nodes() if n.kind == 'stmt' and id(n.ast) in arm_ids and 'self.session.submit(self._reprepare' in src(n.ast)]
+    good_rets = True
+    for r in rets_arm:
+        preds = [p_ for p_, _l in g.preds()[r.id]]
+        good_rets = good_rets and all(id(p_) in allowed or p_ in subs_ for p_ in preds)
+    chk.judge(good_rets and len(subs_) == 1, 'C19.always', arm, 'every return of the arm follows the re-prepare submission or one of the two refusals', 'the arm returns without re-preparing or refusing')
 
     # _execute_after_prepare
     eap = cl.func('ResponseFuture._execute_after_prepare')
